@@ -226,33 +226,45 @@ def dictName (o : Opts) : Str := if o.genericCont then sMapping else if o.stdCol
 /-- `f"{name}[{inner}]" if inner else name` -/
 def wrap1 (name inner : Str) : Str := if inner = [] then name else name ++ ['['] ++ inner ++ [']']
 
+/-- the `if not type_:` part of `type_hint`: the text before any container is put around it, and
+`self.is_optional` as the union loop leaves it -/
+def baseOf (o : Opts) (a : Attrs) (kidHints : List Str) : Str × Bool :=
+  if a.ty ≠ [] then (a.ty, a.isOptional)
+  else
+    match kidHints with
+    | _ :: _ :: _ =>
+      let r := unionLoop o.unionOp kidHints [] a.isOptional
+      match r.1 with
+      | [d] => (d, r.2)
+      | dts => (if o.unionOp then joinSep sPipe dts else sUnionPrefix ++ joinSep sComma dts ++ [']'], r.2)
+    | [h] => (h, a.isOptional)
+    | [] =>
+      if a.literals ≠ [] then (sLiteralPrefix ++ joinSep sComma a.literals ++ [']'], a.isOptional)
+      else match a.ref with
+        | some r => (r.shortName, a.isOptional)
+        | none => ([], a.isOptional)
+
+/-- the `if self.is_list: … elif self.is_set: … elif self.is_dict: …` part -/
+def containerOf (o : Opts) (a : Attrs) (keyHint : Option Str) (b : Str) : Str :=
+  if a.isList then wrap1 (listName o) b
+  else if a.isSet then wrap1 (setName o) b
+  else if a.isDict then
+    (if keyHint.isSome ∨ b ≠ [] then
+      dictName o ++ ['['] ++ keyHint.getD sStr ++ sComma ++ (if b = [] then sAny else b) ++ [']']
+    else dictName o)
+  else b
+
+/-- `reference.source.nullable` makes the type optional -/
+def refNullable (a : Attrs) : Bool := match a.ref with | some r => r.nullable | none => false
+
+/-- the end of `type_hint`: `if self.is_optional and type_ != ANY: return get_optional_type(…)` -/
+def finishOf (unionOp : Bool) (ty : Str) (opt : Bool) : Str × Bool :=
+  if opt ∧ ty ≠ sAny then (getOptionalType unionOp ty, opt) else (ty, opt)
+
 /-- everything `type_hint` does at one node, given the hints of `dict_key` and `data_types` -/
 def hintNode (o : Opts) (a : Attrs) (keyHint : Option Str) (kidHints : List Str) : Str × Bool :=
-  let base : Str × Bool :=
-    if a.ty ≠ [] then (a.ty, a.isOptional)
-    else
-      match kidHints with
-      | _ :: _ :: _ =>
-        let (dts, opt) := unionLoop o.unionOp kidHints [] a.isOptional
-        match dts with
-        | [d] => (d, opt)
-        | _ => (if o.unionOp then joinSep sPipe dts else sUnionPrefix ++ joinSep sComma dts ++ [']'], opt)
-      | [h] => (h, a.isOptional)
-      | [] =>
-        if a.literals ≠ [] then (sLiteralPrefix ++ joinSep sComma a.literals ++ [']'], a.isOptional)
-        else match a.ref with
-          | some r => (r.shortName, a.isOptional)
-          | none => ([], a.isOptional)
-  let opt := base.2 || (match a.ref with | some r => r.nullable | none => false)
-  let ty :=
-    if a.isList then wrap1 (listName o) base.1
-    else if a.isSet then wrap1 (setName o) base.1
-    else if a.isDict then
-      (if keyHint.isSome ∨ base.1 ≠ [] then
-        dictName o ++ ['['] ++ keyHint.getD sStr ++ sComma ++ (if base.1 = [] then sAny else base.1) ++ [']']
-      else dictName o)
-    else base.1
-  if opt ∧ ty ≠ sAny then (getOptionalType o.unionOp ty, opt) else (ty, opt)
+  let base := baseOf o a kidHints
+  finishOf o.unionOp (containerOf o a keyHint base.1) (base.2 || refNullable a)
 
 mutual
 /-- `DataType.type_hint`: the hint, and `is_optional` as the call leaves it -/
